@@ -796,6 +796,45 @@ func (e *Env) call(n *ECall) TV {
 			e.fail("has() on non-map %s", m.Ty)
 		}
 		return TV{S: vc.mapHas(e.st, mt, m.S, k.S), Sort: sBool, Ty: boolT}
+	case "called", "lastResult":
+		// called("F"): a call of F in this function has been executed on the path to here;
+		// lastResult("F", i): result i of that call (F must have exactly one call site here,
+		// outside loops)
+		if len(n.Args) >= 1 {
+			if ks, ok := n.Args[0].(*EStr); ok {
+				sites, ok := vc.callSitesOf(ks.Val)
+				if !ok {
+					e.fail("%s(%q): a call site lies inside a loop", id.Name, ks.Val)
+				}
+				if id.Name == "called" {
+					var ds []string
+					for _, c := range sites {
+						ds = append(ds, vc.calledSoFar(c))
+					}
+					return TV{S: or(ds...), Sort: sBool, Ty: boolT}
+				}
+				if len(sites) != 1 || len(n.Args) != 2 {
+					e.fail("lastResult(%q, i): needs exactly one call site (found %d)", ks.Val, len(sites))
+				}
+				idx := 0
+				if iv, ok := n.Args[1].(*EInt); ok {
+					fmt.Sscanf(iv.Val, "%d", &idx)
+				}
+				v, ok := vc.vals[sites[0]]
+				if !ok {
+					// not executed yet on any path to here: an arbitrary value of the right sort
+					rt := sites[0].Call.Signature().Results().At(idx).Type()
+					so := vc.enc.sortOf(rt)
+					return TV{S: vc.enc.freshConst("nores", so), Sort: so, Ty: rt}
+				}
+				if v.k == vTuple {
+					return e.valTV(v.tup[idx])
+				}
+				return e.valTV(v)
+			}
+		}
+		e.fail("%s(\"<function key>\"...)", id.Name)
+		return TV{}
 	case "entry":
 		// entry(p): the value parameter p had on entry (parameters are mutable; inside a loop
 		// invariant the plain name denotes the current value)
